@@ -57,20 +57,10 @@ HAND = [
     dict(layers=[dict(fns=[], x=False), dict(fns=[_o(0, [_p('a', ['py', 'Base', False])])], x=True),
                  dict(fns=[_o(1, [_p('a', ['py', 'D', False])]), _o(2, [_p('a', ['py', 'str', False])])], x=False)],
          call=dict(args=[['c', 'a']], kw=[])),
-    # the recorded finding: Number() vs Integer() -> TypeError out of is_specialization_of
+    # repaired by 9bf7e72: Number() vs Integer() are not ordered by specialization -> Ambiguous (was: TypeError)
     dict(layers=[dict(fns=[_o(0, [_p('x', 'Number')]), _o(1, [_p('x', 'Integer')])], x=False)],
          call=dict(args=[['c', 1]], kw=[])),
 ]
-
-
-def has_tuple_type(layers):
-    return any(p.get('ty') == 'Number' for l in layers for o in l['fns'] for p in o['params'])
-
-
-def family_key(e, layers):
-    """the recorded finding is matched narrowly: a TypeError out of resolution in a family that has a PythonType over
-    a tuple of classes; any other failure - also any other TypeError - is a violation"""
-    return 'spec-tuple-typeerror' if e == 'TypeError' and has_tuple_type(layers) else 'resolution'
 
 
 def compare(fam, call, model):
@@ -88,12 +78,12 @@ def compare(fam, call, model):
     r_out = real.get('err', real.get('id'))
     e_out = exp.get('err', exp_id)
     if r_out != e_out:
-        out.append(('oracle', family_key(real.get('err'), fam.spec),
+        out.append(('oracle', 'resolution',
                     'real outcome %r, the written rules give %r' % (r_out, e_out)))
     elif real['log'] != exp['log']:
         out.append(('oracle', 'evaluation-log', 'real evaluation log %r, rules give %r (outcome %r)' % (
             real['log'], exp['log'], r_out)))
-    if model is not None and real.get('err') != 'TypeError' and model.get('err') != 'TypeError':
+    if model is not None:
         m_out = model.get('err', model.get('id'))
         mlog = [p for p in model['log'] if p < rl.SILENT]
         if m_out != r_out:
@@ -238,8 +228,6 @@ def run(env, res):
                 res.traces += 1 if models else 0
                 features(case, real, hist)
                 for kind, key, msg in fs[:1]:
-                    if key == 'spec-tuple-typeerror' and any(f.key == key for f in res.failures):
-                        continue            # the recorded finding: one shrunk instance is enough
                     if len(res.failures) < 6:
                         small = shrink(case, drv, kind, key)
                         fs2, _, _ = run_case(small, drv)
@@ -261,7 +249,7 @@ def run(env, res):
         batch.append((layers, fam, calls, cspecs))
         if len(batch) >= 200:
             flush()
-        if len([f for f in res.failures if f.key != 'spec-tuple-typeerror']) >= 12:
+        if len(res.failures) >= 12:
             break
     flush()
     res.extra['histogram'] = hist
@@ -275,8 +263,6 @@ LEVEL_TEXT = ('Lean 4 theorems over a code-shaped model of runner.call/choose_ov
               'FunctionDefinition objects are what is serialised), comparing chosen overload / error class, evaluation '
               'log and bound argument vector, and by an independent Python transcription of the written rules.')
 LEVEL_NOTE = ('trusted: Lean kernel; hand-written models Yaql/Model/Types.lean and Resolve.lean; the encoder of real '
-              'objects; the differential harness and the rules transcription. resolve_eq_spec and the selection corollaries '
-              'carry the hypothesis that no PythonType over a tuple of classes meets one over a single class '
-              '(there is_specialization_of raises TypeError: recorded finding).')
+              'objects; the differential harness and the rules transcription. All theorems are unconditional.')
 TECHNIQUE = 'Lean 4 proof (induction over candidate lists / parameter lists) + differential testing against runner.call'
 DESIGN_REF = 'DESIGN.md section 5, C05'
